@@ -67,7 +67,7 @@ fn utxo(i: usize) -> TransactionUnspentOutput {
     TransactionUnspentOutput::new(&crate::builder::op_outpoint(i), &TransactionOutput::new(&addr, &value_of(e.coin, e.a, e.b)))
 }
 
-const OUTS: [&[(u64, u64, u64)]; 4] = [&[(2_000_000, 0, 0)], &[(2_000_000, 0, 0), (5_000_000, 0, 0)], &[(2_000_000, 20, 0)], &[(3_000_000, 10, 10)]];
+const OUTS: [&[(u64, u64, u64)]; 5] = [&[(2_000_000, 0, 0)], &[(2_000_000, 0, 0), (5_000_000, 0, 0)], &[(2_000_000, 20, 0)], &[(3_000_000, 10, 10)], &[(2_500_000, 0, 0), (2_500_000, 0, 0)]];
 const IMPLICIT: [u64; 3] = [0, 1_000_000, 20_000_000];
 
 fn strategy(i: usize) -> CoinSelectionStrategyCIP2 {
@@ -315,7 +315,7 @@ pub fn scenario(name: &str, tier: Tier) -> Option<BoxedScenario> {
 pub fn run(tier: Tier, seed: u64) -> i32 {
     let mut rep = Report::new(P, tier, seed);
     let n = if tier.thorough() { 7 } else { 6 };
-    rep.rule = format!("4 strategies x 4 output configurations x 3 implicit inputs x 3 pre-existing-input situations x every offered subset of size <= {} of a 7-entry table x offered order as listed / reversed x EVERY sequence of RNG answers (selection, improvement swaps, fee top-up); distinct = distinct (scenario, RNG sequence, resulting input set)", n);
+    rep.rule = format!("4 strategies x 5 output configurations (incl. two identical outputs) x 3 implicit inputs x 3 pre-existing-input situations x every offered subset of size <= {} of a 7-entry table x offered order as listed / reversed x EVERY sequence of RNG answers (selection, improvement swaps, fee top-up); distinct = distinct (scenario, RNG sequence, resulting input set)", n);
     rep.bound("max_offered", serde_json::json!(n));
     rep.assume("a UTxO set is a function: every offered outpoint has one owner and one value");
     rep.assume("the left side of the coverage inequality is computed from the scenario's table by outpoint, never from the builder's own totals");
